@@ -15,6 +15,7 @@ from vfw import refs
 from checks import _c03_objects as O
 from checks import _c03_engine as E
 from checks import _c03_composite as X
+from checks import _reassign
 
 PROPERTY = "C03"
 RULE = ("cells = family x size x FD option (full product inside the bound); every cell builds the full product of "
@@ -70,6 +71,7 @@ def cells(tier, seed):
         for lvl in reversed(mrf_levels):
             for fam in ("gmrf", "cmrf", "lmrf"):
                 out.append({"kind": "dist", "family": fam, "level": lvl, "fd": fd, "cat": k, "npts": npts})
+    out.extend(_reassign.cells(tier, seed))     # E1 add-on: use -> assign -> use histories on one live object
     return out
 
 
@@ -102,7 +104,33 @@ def _generators(cell):
 FD_EPS = 1e-8
 
 
+def _reassign_judge(live, fresh, pts):
+    """C03's own oracle on a live (re-assigned) object: gradient raises, or equals the derivative of ITS logd."""
+    out = []
+    for x in pts:
+        try:
+            g = live.gradient(x)
+        except Exception:
+            continue
+        if g is None:
+            out.append(("gradient", False, "gradient returned None"))
+            continue
+        try:
+            f = lambda z: float(np.asarray(live.logd(z)).ravel()[0])
+            if not np.isfinite(f(x)):
+                continue
+            ref, g1, g2 = refs.richardson_grad(f, x, h=1e-3)
+        except Exception:
+            continue
+        g = np.asarray(g, dtype=float).ravel()
+        ok = g.size == ref.size and bool(np.max(np.abs(g - ref)) <= 1e-5 * max(1.0, float(np.max(np.abs(ref)))))
+        out.append(("gradient", ok, "gradient %s vs derivative of the same object's logd %s" % (g[:4], ref[:4])))
+    return out
+
+
 def eval_cell(cell):
+    if cell.get("fam") == "reassign":
+        return _reassign.eval_cell(cell, PROPERTY, None, "gradient vs own logd", judge=_reassign_judge)
     res = CellResult(cell)
     rec = E.Recorder(res, PROPERTY)
     fd = bool(cell["fd"])
